@@ -332,6 +332,11 @@ func schedSuite(suite string, kinds []string, quickN, thoroughN int) suiteFunc {
 				joinWindowCase(rng, w, suite)
 			}
 		}
+		if suite == "schedC06" {
+			for i := 0; i < 4; i++ {
+				sharedAddrQueueCase(rng, w, suite)
+			}
+		}
 		if suite == "schedC09" {
 			for i := 0; i < 3; i++ {
 				windowCase(rng, w, suite)
@@ -608,6 +613,96 @@ func window2Case(rng *rand.Rand, w *Writer, suite string) {
 	w.Case(suite, []string{fmt.Sprintf("cfg=%d:0", opts.netID), fmt.Sprintf("apps=%x", uint64(a.ToInt64())), "pop=" + strings.Join(pops, ";"),
 		"pre=" + strings.Join(pre, "|"), "f1=" + e1, "f2=" + e2, "kind=window2", "sched="}, "D["+strings.Join(dl, ";")+"] P[] "+h.dumpAll())
 	w.Count("sched.window2")
+}
+
+// Two devices that share a DevAddr, the second with TWO queued messages: both send an uplink inside one receive window, and
+// when that has been answered the second device sends its next uplink. Each device is answered for each of its uplinks (the
+// scheduler's slot is per device), and the second device gets its messages oldest first - one per uplink.
+func sharedAddrQueueCase(rng *rand.Rand, w *Writer, suite string) {
+	opts := worldOpts{netID: uint(rng.Intn(1 << 24)), rxDelay: 400 * time.Millisecond}
+	world := newWorld(opts)
+	defer world.close()
+	h := &histRunner{w: world, rng: rng, tags: w.Stats, lastValid: map[int][]byte{}}
+	h.gws = []uint64{genEUI(rng), genEUI(rng)}
+	a := eui64(genEUI(rng))
+	h.apps = []protocol.EUI{a}
+	world.store.CreateApplication(model.Application{AppEUI: a})
+	world.watchApp(a)
+	addr := rng.Uint32()
+	var pops []string
+	for i := 0; i < 2; i++ {
+		d := &simDev{eui: eui64(genEUI(rng)), appeui: a, appkey: genKey(rng), relaxed: rng.Intn(2) == 0}
+		d.nwk, d.app = randBytes(rng, 16), randBytes(rng, 16)
+		d.addr = addr
+		d.joined = true
+		d.fup0 = []uint16{0, 1, 100}[rng.Intn(3)]
+		d.fdn0 = []uint16{0, 7}[rng.Intn(2)]
+		d.fcnt = d.fup0
+		world.store.CreateDevice(mkDevice(d.eui, d.appeui, d.addr, d.appkey, d.nwk, d.app, d.fup0, d.fdn0, d.relaxed, model.PersonalizedDevice), d.appeui)
+		d.registered = true
+		h.devs = append(h.devs, d)
+		pops = append(pops, fmt.Sprintf("%x:%x:%s:%s:%s:%x:%d:%d:%d:%d", uint64(d.eui.ToInt64()), d.addr, hx(d.appkey), hx(d.nwk), hx(d.app),
+			uint64(d.appeui.ToInt64()), d.fup0, d.fdn0, b01(d.relaxed), int(model.PersonalizedDevice)))
+	}
+	h.submit(h.devs[1], uint8(1+rng.Intn(200)), false, randBytes(rng, 1+rng.Intn(20)))
+	h.submit(h.devs[1], uint8(1+rng.Intn(200)), false, randBytes(rng, 1+rng.Intn(20)))
+	if rng.Intn(2) == 0 {
+		h.submit(h.devs[0], uint8(1+rng.Intn(200)), false, randBytes(rng, 1+rng.Intn(20)))
+	}
+	pre := append([]string{}, h.events...)
+	f1 := h.validUplink(h.devs[0], true, false, h.devs[0].fcnt, 1+rng.Intn(200), randBytes(rng, rng.Intn(20)), nil)
+	f2 := h.validUplink(h.devs[1], true, false, h.devs[1].fcnt, 1+rng.Intn(200), randBytes(rng, rng.Intn(20)), nil)
+	f3 := h.validUplink(h.devs[1], false, false, h.devs[1].fcnt+1, 1+rng.Intn(200), randBytes(rng, rng.Intn(20)), nil)
+	// half of the cases: the two frames are received at the same instant (two gateways reporting at once), so that both
+	// answers fall due together and reach the encoder back to back
+	sameInstant := false
+	t0 := time.Now()
+	mk := func(raw []byte, gw uint64) (server.GatewayPacket, string) {
+		datr := datrs[rng.Intn(len(datrs))]
+		rssi := int32(-rng.Intn(130))
+		snr8 := rng.Intn(281) - 160
+		ch := uint8(rng.Intn(8))
+		clock := rng.Uint32()
+		now := time.Now()
+		if sameInstant {
+			now = t0
+		}
+		ts := now.UnixNano() - 1600000000000000000
+		return server.GatewayPacket{
+			RawMessage: append([]byte{}, raw...),
+			Radio:      server.RadioContext{Channel: ch, RFChain: 0, Frequency: 868.1, DataRate: datr, Band: eu868, RSSI: rssi, SNR: float32(snr8) / 8},
+			Gateway:    server.GatewayContext{GatewayEUI: eui64(gw), GatewayHost: "127.0.0.1", GatewayPort: 1700, GatewayClock: clock, ProtocolVersion: 2},
+			ReceivedAt: now,
+		}, fmt.Sprintf("R,%s,%x,%d,%s,%d/%d,%d,%d,,0", hx(raw), gw, ts, datr, rssi, snr8, ch, clock)
+	}
+	p1, e1 := mk(f1, h.gws[0])
+	p2, e2 := mk(f2, h.gws[1])
+	world.inject(p1)
+	if !sameInstant {
+		time.Sleep(30 * time.Millisecond) // well inside the first uplink's window
+	} else {
+		w.Count("sched.window2.same-instant")
+	}
+	world.inject(p2)
+	if !world.quiesce() {
+		w.Case(suite, []string{"kind=window2", "pop=" + strings.Join(pops, ";")}, "HUNG")
+		return
+	}
+	p3, e3 := mk(f3, h.gws[0])
+	world.inject(p3)
+	if !world.quiesce() {
+		w.Case(suite, []string{"kind=window2", "pop=" + strings.Join(pops, ";")}, "HUNG")
+		return
+	}
+	downs, _, _ := world.collect()
+	var dl []string
+	for _, x := range downs {
+		dl = append(dl, dlStr(x))
+	}
+	sort.Strings(dl)
+	w.Case(suite, []string{fmt.Sprintf("cfg=%d:0", opts.netID), fmt.Sprintf("apps=%x", uint64(a.ToInt64())), "pop=" + strings.Join(pops, ";"),
+		"pre=" + strings.Join(pre, "|"), "f1=" + e1, "f2=" + e2, "f3=" + e3, "nf=3", "queue=1", "kind=window2", "sched="}, "D["+strings.Join(dl, ";")+"] P[] "+h.dumpAll())
+	w.Count("sched.window2.shared-address-queue")
 }
 
 // The same with five devices (own addresses) whose confirmed uplinks are all received at the same instant - five gateways
